@@ -288,11 +288,27 @@ func runC03(env *Env, tier string) {
 		sBefore := S
 		// in a share of the requests the store fails in the middle of reading the range
 		readFault := !c.PersistOff && ch.Chance("readfault", 1, 8)
+		sqlRowsFault := false
 		if readFault {
-			s.E.SF.ArmIterFail(ch.Choose("readfaultafter", 6))
+			if c.Store == "sql" && ch.Chance("readfaultinresultset", 1, 2) {
+				// ... inside the database's result set (the query succeeds, fetching a row fails)
+				SQLFaults.RowsFailed.Store(false)
+				SQLFaults.RowsFailAfter.Store(int64(ch.Choose("readfaultafter", 6)))
+				sqlRowsFault = true
+			} else {
+				s.E.SF.ArmIterFail(ch.Choose("readfaultafter", 6))
+			}
 		}
 		r := p.Send("2", []wire.Field{wire.FI(7, b), wire.FI(16, e)}, MsgOpt{})
-		readFault = readFault && s.E.SF.IterFailed
+		if sqlRowsFault {
+			SQLFaults.RowsFailAfter.Store(-1)
+			readFault = SQLFaults.RowsFailed.Load()
+			if readFault {
+				env.Stat("fault_store_read_error_mid_range")
+			}
+		} else {
+			readFault = readFault && s.E.SF.IterFailed
+		}
 		s.E.SF.armedIter = false
 		if a.engS() != sBefore {
 			env.Violate("C03/consumed-numbers", "answering a ResendRequest moved the next outbound number from %d to %d", sBefore, a.engS())
